@@ -319,7 +319,8 @@ Proof.
   - (* case *) intros from bs IHb g shadow p Hg Hp. cbn [tc_form].
     fold (tc_branches_provider D Sg) (tc_branches_client D Sg). go.
   - (* new *) intros x body IHbody k IHk g shadow p Hg Hp. cbn [tc_form].
-    destruct (ctx_has g (ident x)) eqn:Er; do 3 step.
+    repeat (cbv zeta; match goal with |- safe (tbind (guard _ _) _) => apply wp_guard; intro end).
+    destruct (ctx_has g (ident x)) eqn:Er.
     all: destruct body;
       try (match goal with |- context [sig_lookup Sg ?fn] =>
              step; destruct (sig_lookup Sg fn) as [sg|] eqn:Esg; [|exact I];
